@@ -19,6 +19,17 @@ theorem C07_battalion (cfg : Config) (st : State) (h : Battalion.Spec.wf cfg st 
       = Battalion.Spec.expected st :=
   Battalion.overrides_expected cfg st h
 
+/-- The whole query (socket, three requests, three replies each in one datagram, decode, overrides, conversion)
+against any well-formed Battalion 1944 server, for every port and behaviour of the external decoders. -/
+theorem C07_battalion_query (ext : Ext) (port : Nat) (cfg : Config) (st : State) (h : Battalion.Spec.wf cfg st = true)
+    (hl1 : (reply 0x49 (encSourceInfo cfg.upper st.info)).length ≤ 6144)
+    (hl2 : (reply 0x44 (encPlayers st.players)).length ≤ 6144)
+    (hl3 : (reply 0x45 (encRules st.rules)).length ≤ 6144) :
+    (Battalion.query ext port (Net.init [.opened
+        [.data (reply 0x49 (encSourceInfo cfg.upper st.info)), .data (reply 0x44 (encPlayers st.players)),
+         .data (reply 0x45 (encRules st.rules))]] [])).1 = Battalion.Spec.expected st :=
+  Battalion.query_single ext port cfg st h hl1 hl2 hl3
+
 /-- The five overrides in closed form, for ANY info reply and rule set whose numeric overrides are decimal
 0–255: which rule overrides which field, and what is removed (the five, and `bat_map_s`, which overrides
 nothing). -/
